@@ -777,7 +777,29 @@ def r10_15(chk):
     chk.floor("R10.15", 5, "classes with a to_rich_dict / from_rich_dict pair")
 
 
+def r10_16(chk):
+    chk.rule("R10.16", "a rich dict holds JSON types only: the annotation dbs put their constructor-argument snapshot (`_serialisable`, taken by __new__ from whatever the caller passed) into `init_args`; the `source` argument may be a pathlib.Path (it is a file location), so it is written as text -- somewhere between the snapshot and the dict `source` passes through str()/os.fspath() -- otherwise to_json() of a db opened on a Path raises TypeError")
+    m = chk.repo.module("core/annotation_db.py")
+    ci = m.cls("SqliteAnnotationDbMixin")
+    w = ci.methods["to_rich_dict"]
+    uses_snapshot = any(isinstance(x, ast.Attribute) and x.attr == "_serialisable" for x in ast.walk(w))
+    k = key(m, "SqliteAnnotationDbMixin.to_rich_dict", "source written as text")
+    if not uses_snapshot:
+        chk.ok("R10.16", k, m.loc(w), "init_args are not taken from the constructor snapshot", nontrivial=False)
+    else:
+        conv = False
+        for fn in [w, ci.methods.get("__new__")] + [c.methods.get("__init__") for c in m.classes.values() if ci in c.mro()]:
+            if not isinstance(fn, ast.FunctionDef):
+                continue
+            for st in walk_no_nested(fn):
+                if isinstance(st, ast.Assign) and any(isinstance(t, ast.Subscript) and isinstance(t.slice, ast.Constant) and t.slice.value == "source" for t in st.targets) and any(isinstance(c, ast.Call) and norm(c.func) in ("str", "os.fspath", "fspath") for c in ast.walk(st.value)):
+                    conv = True
+        chk.decide(conv, "R10.16", k, m.loc(w), "the source entry is converted to text", "the snapshot's `source` reaches init_args as the caller gave it: BasicAnnotationDb(source=pathlib.Path('x.db')).to_json() raises TypeError: Object of type PosixPath is not JSON serializable")
+    chk.floor("R10.16", 1, "annotation db to_rich_dict")
+
+
 def run(chk):
+    r10_16(chk)
     r10_15(chk)
     r10_14(chk)
     r10_13(chk)
